@@ -359,3 +359,6 @@ func IteU64(c bool, a, b uint64) uint64 {
 	}
 	return b
 }
+
+// Concretize8 forks over every feasible value of x (natively the identity).
+func Concretize8(x uint8) uint8 { return x }
